@@ -140,7 +140,9 @@ fn segment(d: &mut Drv, r: &mut R, dir: &std::path::Path, seg: u64) {
             if o.is_ok() { live.remove(i); }
         } else if k < 96 {
             let i = r.random_range(0..live.len());
-            // over a column without duplicates: a rejected CREATE UNIQUE INDEX leaves pages and a catalog entry behind (finding FailedCreateIndexUnclean)
+            // over the id column (no duplicates) or over the text column (usually duplicates: must be refused and release the pages it took)
+            // (only where the text is short: an index key that itself continues in an overflow chain still aliases it, finding LargeKeySeparatorAliasesChain)
+            if r.random_bool(0.3) && !is_big(&live[i].0) { d.sql(0, &format!("CREATE UNIQUE INDEX ixt_{}_{} ON {} (t)", live[i].0, r.random_range(0..1000), live[i].0)); }
             if !live[i].1 { let o = d.sql(0, &format!("CREATE UNIQUE INDEX ix_{}_{} ON {} (id)", live[i].0, r.random_range(0..1000), live[i].0)); if o.is_ok() { live[i].1 = true; } }
         } else {
             let _ = d.eng.close();
